@@ -312,3 +312,12 @@ Proof.
   split; [exact short_label_injective|]. split; [exact short_label_nonempty'|].
   split; [intros k; destruct k; discriminate|]. repeat split; repeat constructor.
 Qed.
+
+(* the placeholder side condition of C08_mul_wallace_exact is needed for the LENGTH too: with a naming function that
+   hands out '_PLACEHOLDER_STR_' (here for the second partial product) the 2 x 2 Wallace multiplier returns 3 labels *)
+Definition placeholder_at (j k : N) : label := if (k =? j)%N then PLACEHOLDER_STR else short_label k.
+
+Example C08_wallace_length_needs_the_placeholder_condition :
+  exists rs s', run (placeholder_at 2) (add_mul_wallace ["a"; "b"] ["d"; "e"] false) (mkB demo_host 1) = Ok (rs, s') /\
+    length rs = 3%nat /\ mul_len 2 2 = 4%nat /\ has_gate (bc s') PLACEHOLDER_STR = true.
+Proof. vm_compute. eexists _, _. repeat split. Qed.
